@@ -496,7 +496,7 @@ InitState == [ ginfo |-> [g \in Groups |-> NoGInfo],
                wl    |-> <<>>,
                welc  |-> [c \in Clients |-> <<>>],
                pwelc |-> [c \in Clients |-> <<>>],
-               hist  |-> [mergedNoSnap |-> {}, lastRes |-> "", notifs |-> <<>>, late |-> {}, tried |-> {}, q |-> FALSE, aheadOfRefs |-> {}, lostTs |-> {}, ptrStale |-> {}, wreset |-> {}, syncFail |-> {}] ]
+               hist  |-> [mergedNoSnap |-> {}, lastRes |-> "", notifs |-> <<>>, late |-> {}, tried |-> {}, triedIn |-> {}, q |-> FALSE, aheadOfRefs |-> {}, lostTs |-> {}, ptrStale |-> {}, wreset |-> {}, syncFail |-> {}] ]
 
 Init ==
     /\ ginfo = InitState.ginfo
@@ -700,7 +700,13 @@ AcceptWelcome(c, w) ==
        /\ IF "RejoinKeepsSnapshots" \in Dev THEN UNCHANGED <<snapq, hyd>>
           ELSE /\ snapq' = [snapq EXCEPT ![c][g] = <<>>]
                /\ hyd' = [hyd EXCEPT ![c] = @ \cup {g}]
-    /\ UNCHANGED <<ginfo, ev, proc, msgs, withdrawn, wl, pwelc>>
+       \* the closing re-sync moves the record to the joined epoch; if that is an advance, undecryptable records become Retryable
+       /\ LET adv   == cl[c][g].rec.st # "none" /\ EpochOf(g, wl[w].chain) > cl[c][g].rec.epoch
+                       /\ "UndecryptableNeverRetried" \notin Dev
+              retry == {x \in DOMAIN proc[c] : proc[c][x].g = g /\ proc[c][x].state = "failed" /\ proc[c][x].epoch = NoEpoch}
+          IN  proc' = IF adv THEN [proc EXCEPT ![c] = [x \in DOMAIN @ |-> IF x \in retry THEN [@[x] EXCEPT !.state = "retryable"] ELSE @[x]]]
+                      ELSE proc
+    /\ UNCHANGED <<ginfo, ev, msgs, withdrawn, wl, pwelc>>
 
 DeclineWelcome(c, w) ==
     /\ w \in DOMAIN wl /\ WelcOf(c, w) # "none" /\ CanStage(c, w)
@@ -782,7 +788,13 @@ Deliver(c, e, nm) ==
        IN  /\ Install(c, r.cs)
            /\ hist' = [hist EXCEPT !.lastRes = r.res, !.notifs = r.cs.notif,
                                    !.tried = @ \cup {<<c, e>>},
-                                   !.late = IF <<c, e>> \notin hist.tried /\ OutsideWindow(c, e) THEN @ \cup {<<c, e>>} ELSE @,
+                                   \* "late" = outside the windows at the first hand-over at which the receiver was on the event's branch
+                                   \* and had reached its epoch (a hand-over ahead of the epoch, or on a competing branch, cannot be
+                                   \* decrypted and says nothing about the windows)
+                                   !.triedIn = IF IsPrefixEq(ev[e].parent, cl[c][g0].chain) THEN @ \cup {<<c, e>>} ELSE @,
+                                   !.late = IF <<c, e>> \notin hist.triedIn /\ IsPrefixEq(ev[e].parent, cl[c][g0].chain)
+                                               /\ OutsideWindow(c, e)
+                                            THEN @ \cup {<<c, e>>} ELSE @,
                                    !.syncFail = @ \cup {<<c, gg>> : gg \in r.cs.syncfail},
                                    !.ptrStale = IF r.cs.notif # <<>> THEN @ \cup {<<c, g0>>}
                                                 ELSE IF r.cs.g[g0].rec.last = ExpectedLastCS(r.cs, g0) THEN @ \ {<<c, g0>>}
